@@ -23,6 +23,8 @@ struct Th {
     st: ThSt,
     yielded: bool,
     last_run: u64,
+    /// how many times this thread blocked on a condition variable
+    cond_blocks: u64,
 }
 
 /// One recorded decision with more than one candidate.
@@ -89,6 +91,7 @@ impl Sched {
                     st: ThSt::Run,
                     yielded: false,
                     last_run: 0,
+                    cond_blocks: 0,
                 }],
                 current: Some(0),
                 prefix,
@@ -123,6 +126,22 @@ impl Sched {
         trust_runtime::verif_sync::install(None);
         let st = self.st.lock().unwrap();
         Self::info(&st)
+    }
+
+    /// Omniscient observers for scenario oracles (do not count as scheduling points).
+    pub fn is_blocked_on_cond(&self, tid: usize) -> bool {
+        let st = self.st.lock().unwrap();
+        matches!(st.th.get(tid).map(|t| t.st), Some(ThSt::Blocked(Res::Cond(_))))
+    }
+
+    pub fn cond_blocks(&self, tid: usize) -> u64 {
+        let st = self.st.lock().unwrap();
+        st.th.get(tid).map(|t| t.cond_blocks).unwrap_or(0)
+    }
+
+    pub fn is_done(&self, tid: usize) -> bool {
+        let st = self.st.lock().unwrap();
+        matches!(st.th.get(tid).map(|t| t.st), Some(ThSt::Done))
     }
 
     fn info(st: &State) -> RunInfo {
@@ -271,6 +290,7 @@ impl Scheduler for Sched {
             st: ThSt::Run,
             yielded: false,
             last_run: 0,
+            cond_blocks: 0,
         });
         st.th.len() - 1
     }
@@ -319,6 +339,9 @@ impl Scheduler for Sched {
         let mut st = self.wait_turn(me);
         Self::note(&mut st, me, "block");
         st.th[me].st = ThSt::Blocked(res);
+        if matches!(res, Res::Cond(_)) {
+            st.th[me].cond_blocks += 1;
+        }
         match self.decide(&mut st, me) {
             Ok(Some(next)) => {
                 let _st = self.switch_and_wait(st, me, next);
